@@ -15,6 +15,7 @@ from perception_eval.evaluation.matching import objects_filter as of_mod
 from .. import matching
 from ..core import BOUNDARY, Ctx, Taps, guarded
 from ..gen import objects as O
+from ..oracles import geometry as G
 
 LEVEL_TEXT = (
     "Held on every filter call executed under the monitor: filter_objects / filter_object_results (all aliases) and the "
@@ -453,6 +454,37 @@ def run(ctx: Ctx) -> None:
                     kw["target_uuids"] = [o.uuid for o in r.sample(objs, r.randint(1, len(objs)))]
                 if r.random() < 0.4:
                     kw["ignore_attributes"] = r.choice([["occluded"], ["gre"], []])
-                mgr_mod.filter_objects(objs, is_gt, **kw)
+                if idx % 3 == 0 and objs:
+                    # 2D objects that carry a 3D position in their camera's frame (traffic lights from the map, projected
+                    # detections): the range criteria apply to them through the camera's extrinsics in the registry
+                    from perception_eval.common.schema import FrameID
+                    from perception_eval.common.transform import HomogeneousMatrix, TransformDict
+                    from pyquaternion import Quaternion as _Q
+
+                    q_cam = G.quat_mul(G.quat_from_yaw(r.uniform(-math.pi, math.pi)), (0.5, -0.5, 0.5, -0.5))
+                    t_cam = (r.uniform(-2, 3), r.uniform(-1, 1), r.uniform(0.5, 3))
+                    M = G.homogeneous(t_cam, q_cam)  # camera -> ego
+                    Minv = G.inv_rigid(M)
+                    for o in objs:
+                        if r.random() < 0.85:
+                            rad, ang = r.uniform(0, 90), r.uniform(-math.pi, math.pi)
+                            pe = np.array([rad * math.cos(ang), rad * math.sin(ang), r.uniform(0, 6), 1.0])
+                            o.state.position = tuple(float(v) for v in (Minv @ pe)[:3])
+                    if r.random() < 0.5:
+                        reg = HomogeneousMatrix(np.array(t_cam), _Q(*q_cam), src=FrameID.CAM_FRONT, dst=FrameID.BASE_LINK)
+                    else:
+                        reg = HomogeneousMatrix(Minv[:3, 3].copy(), _Q(matrix=Minv[:3, :3], atol=1e-6), src=FrameID.BASE_LINK, dst=FrameID.CAM_FRONT)
+                    kw["transforms"] = TransformDict([reg])
+                    if r.random() < 0.5:
+                        kw["max_distance_list"] = [round(r.uniform(20, 90), 1) for _ in labels]
+                        if r.random() < 0.6:
+                            kw["min_distance_list"] = [round(r.uniform(0, 15), 1) for _ in labels]
+                    else:
+                        kw["max_x_position_list"] = [round(r.uniform(20, 90), 1) for _ in labels]
+                        kw["max_y_position_list"] = [round(r.uniform(20, 90), 1) for _ in labels]
+                    ctx.count("C10.positioned_2d_cases")
+                out2d = mgr_mod.filter_objects(objs, is_gt, **kw)
+                if "transforms" in kw:
+                    ctx.count("C10.positioned_2d_removed_by_range", sum(1 for o in objs if o.state.position is not None) - sum(1 for o in out2d if o.state.position is not None))
         run_manager_scenarios(ctx, "scenario", 30 if ctx.quick else 2000)
         ctx.notes["taps"] = taps.installed
